@@ -154,7 +154,7 @@ def enc_bytes(b: bytes):
 
 def dec_bytes(v) -> bytes:
     if isinstance(v, str):
-        return v.encode("utf-8")
+        return v.encode("utf-8", "replace")  # a file cannot hold half a surrogate pair
     return base64.b64decode(v["b64"])
 
 
